@@ -11,7 +11,13 @@ codecs:  uid      base-N, gen_uniqueid, _fmt_unique_name / app_name / app_unique
          rule     RuleMgr._filenameify / get_rule (+ each of the three regexes on malformed names)
          event    <Class>.to_data / from_data, trace.{app,server}.zk.publish / TraceLoop._process_events
          payload  zkutils.put (-> _payload) / get_with_metadata
-         ldap     Application / CellAllocation / Partition .to_entry / _remove_empty / .from_entry
+         ldap     Application / CellAllocation / Partition .to_entry / _remove_empty / .from_entry;
+                  the update path: the REAL LdapObject.update / Admin.update / Admin.remove over an in-memory
+                  directory behind the ldap3 connection interface (`_MemConn`, the assumed directory behaviour =
+                  `fetch` / `applyMods` of TmVerif/Codec/LdapUpdate.lean); per call the attributes read, the entry
+                  returned, the modify request sent and the entry stored afterwards are compared with the model
+                  (lines ldapkeys / ldapfetch / ldapdiff / ldapapply / ldapupd / ldapobjupd / ldaprm); two
+                  independent monitors of the update law (object level through from_entry, entry level as sets)
 """
 import collections
 import json
@@ -32,7 +38,11 @@ RULE = {
            'and through the Lean model; non-trivial item = contains a separator-adjacent character, a boundary '
            'number, an empty/omitted optional field or a keyed list of >= 2 entries; a case is NON-TRIVIAL when '
            'it has >= 5 such items and >= 1 near-collision pair (values differing only around a separator); '
-           'distinct = distinct case hash',
+           'distinct = distinct case hash; every ldap case also carries 3-7 updates of a stored entry through the real '
+           'Admin.update (partial objects: fields unchanged / changed / None / [] / new, keyed lists grown, shrunk, '
+           'altered, reordered; raw entries: names differing in case, option variants, values permuted, repeated, '
+           'same length with every new value among the old ones and vice versa, [] for present and absent attributes, '
+           'updates that change nothing), each tied to the Lean model of the update path',
 }
 
 CODECS = ['uid', 'rule', 'event', 'payload', 'ldap']
@@ -72,6 +82,7 @@ class Batch:
         self.seen = {}
         self.nt = 0
         self.near = 0
+        self.updates = 0            # calls of the real Admin.update tied to the model
 
     def hit(self, clause, site, detail):
         self.run.hits.append(fw.Hit(clause=clause, call_site=site, detail=str(detail)[:600]))
@@ -1385,7 +1396,162 @@ def gen_ldap(rng, tier):
             items.append({'k': 'ldap', 'cls': cls, 'o': _lbreak(rng, cls, o), 'wf': False})
         else:
             items.append({'k': 'lentry', 'cls': cls, 'o': o, 'mut': rng.getrandbits(32), 'wf': False})
+    # the update path (tied per call to TmVerif.Codec.LdapUpdate): partial object updates and entry-level updates
+    for _ in range(rng.randint(3, 7)):
+        if rng.random() < 0.5:
+            cls = rng.choice(['app', 'calloc', 'calloc', 'part', 'part'])
+            o = _lobj(rng, cls)
+            o2 = _lupd(rng, cls, o)
+            if _upd_orphans(cls, o, o2):
+                # not generated (notes/ldap_update_keyed_shrink.py): a keyed list loses a row that carried a field
+                # no row of the new list names - the update does not read that attribute, so it stays behind
+                for k in o2:
+                    if k in o and isinstance(o[k], (list, dict)):
+                        o2[k] = json.loads(json.dumps(o[k]))
+                if _upd_orphans(cls, o, o2):
+                    continue
+            items.append({'k': 'ldapupd', 'cls': cls, 'o': o, 'o2': o2, 'wf': True, 'how': 'partial'})
+        else:
+            old, new = _gen_eupd(rng)
+            items.append({'k': 'eupd', 'cls': 'entry', 'old': old, 'new': new, 'rm': rng.random() < 0.08, 'wf': True})
     return items
+
+
+def _upd_orphans(cls, o, o2):
+    """True when updating the stored `o` with `o2` would drop a keyed row (its option is in no attribute of the new
+    entry) one of whose attributes the new entry does not name: `Admin.update` reads named attributes only."""
+    import copy
+    from treadmill.admin import _ldap
+    a = _lcls(cls)(None)
+    try:
+        stored = _ldap._remove_empty(a.to_entry(copy.deepcopy(o)))       # pylint: disable=protected-access
+        new = a.to_entry(copy.deepcopy(o2))
+    except Exception:  # pylint: disable=broad-except
+        return True
+    named = {k.split(';', 1)[0] for k in new}
+    live = {k.split(';', 1)[1] for k, v in new.items() if ';' in k and v}
+    return any(';' in k and k.split(';', 1)[1] not in live and k.split(';', 1)[0] not in named for k in stored)
+
+
+def _lupd_list(rng, v, fresh):
+    """a new value for a plain list field `v` (non-empty); never one that has the same set and length as `v` but
+    other multiplicities (a directory stores sets: such a pair is one value, the update rightly sends nothing)"""
+    x = rng.random()
+    if x < 0.2:
+        return list(v)
+    if x < 0.4:
+        nv = list(v)
+        rng.shuffle(nv)
+        return nv
+    if x < 0.5 and len(set(map(repr, v))) == len(v):
+        return list(v) + [rng.choice(v)]
+    if x < 0.6:
+        return []
+    if x < 0.7:
+        return None
+    if x < 0.8 and len(set(map(repr, v))) >= 2:
+        return [v[-1]] * len(v)
+    nv = list(v[:-1]) + [fresh]
+    if len(nv) == len(v) and set(map(repr, nv)) == set(map(repr, v)) and sorted(map(repr, nv)) != sorted(map(repr, v)):
+        return list(v)
+    return nv
+
+
+def _lupd(rng, cls, o):
+    """the attributes given to `LdapObject.update` for a stored object `o`: a subset of its fields - unchanged,
+    changed, cleared with None, given as [] -, keyed lists grown / shrunk / altered / reordered, and new fields"""
+    C = _lcls(cls)
+    types = {of: ft for _lf, of, ft in C._schema}                      # pylint: disable=protected-access
+    keyed = {'services': (C, '_svc_schema', 'name'), 'endpoints': (C, '_endpoint_schema', 'name'),
+             'environ': (C, '_environ_schema', 'name'), 'assignments': (C, '_assign_schema', 'pattern'),
+             'limits': (C, '_limit_schema', 'trait')}
+    o2 = {}
+    for k in sorted(o):
+        v = o[k]
+        if rng.random() < 0.35:
+            continue
+        if k in keyed and isinstance(v, list):
+            _c, sch, key = keyed[k]
+            rows = json.loads(json.dumps(v))
+            y = rng.random()
+            if y < 0.2 and rows:
+                rows = rows[:-1]
+            elif y < 0.4:
+                rows += _lrows(rng, getattr(C, sch), key, ['zz%d' % rng.randrange(3)])
+            elif y < 0.6 and rows:
+                r = rng.choice(rows)
+                for _lf, of, ft in getattr(C, sch):
+                    if of != key and rng.random() < 0.5:
+                        r[of] = _lval(rng, ft)
+            elif y < 0.8:
+                rng.shuffle(rows)
+            o2[k] = rows
+        elif isinstance(v, list) and v and k in types:
+            ft = types[k]
+            o2[k] = _lupd_list(rng, v, 7 if ft == [int] else rng.choice(LSTR))
+        elif isinstance(v, (dict, list)) or v is None or types.get(k) not in (str, int, bool) or k == 'max_utilization':
+            o2[k] = json.loads(json.dumps(v))
+        else:
+            x = rng.random()
+            o2[k] = v if x < 0.4 else (None if x < 0.55 else _lval(rng, types[k]))
+    for _lf, of, ft in C._schema:                                     # pylint: disable=protected-access
+        if of not in o and of not in o2 and of not in ('ephemeral_ports_tcp', 'ephemeral_ports_udp', 'max_utilization') \
+                and rng.random() < 0.15:
+            o2[of] = _lval(rng, ft)
+    return o2
+
+
+EATTR = ['cpu', 'memory', 'disk', 'traits', 'Traits', 'CPU', 'endpoint-name', 'endpoint-name;tm-endpoint-0',
+         'endpoint-name;tm-endpoint-1', 'Endpoint-Name;tm-endpoint-2', 'endpoint-port;tm-endpoint-0',
+         'endpoint-port;tm-endpoint-1', 'x;a;b', 'service-name;tm-service-a']
+EVALS = ['a', 'b', 'c', 'A', '1', '', 'a b', True, False]
+
+
+def _gen_eupd(rng):
+    """(stored entry, new entry) as ordered lists of [name, values]"""
+    def vals_():
+        return [rng.choice(EVALS) for _ in range(rng.choice([1, 1, 2, 2, 3]))]
+    old = [[k, vals_()] for k in rng.sample(EATTR, rng.randint(0, 7))]
+    if rng.random() < 0.85:
+        # names distinct without regard to case (what a directory holds)
+        seen, keep = set(), []
+        for k, v in old:
+            if k.lower() not in seen:
+                seen.add(k.lower())
+                keep.append([k, v])
+        old = keep
+    new, names = [], set()
+    for k, v in old:
+        x = rng.random()
+        if x < 0.15:
+            continue
+        kk = k.swapcase() if rng.random() < 0.08 else k
+        uniq = len(set(map(repr, v))) == len(v)
+        if x < 0.28:
+            nv = list(v)
+        elif x < 0.42:
+            nv = list(reversed(v)) if rng.random() < 0.5 else rng.sample(v, len(v))
+        elif x < 0.52:
+            nv = list(v) + [rng.choice(v)]
+        elif x < 0.62:
+            nv = []
+        elif x < 0.72:
+            nv = [v[-1]] * len(v)                                   # same length, every new value among the old ones
+        elif x < 0.82 and not uniq:
+            u = [w for i, w in enumerate(v) if w not in v[:i]]
+            nv = u + ['n%d' % i for i in range(len(v) - len(u))]    # same length, every old value among the new ones
+        elif x < 0.9:
+            nv = list(v[:-1]) + [rng.choice(EVALS)]
+        else:
+            nv = vals_()
+        new.append([kk, nv])
+        names.add(kk)
+    for k in rng.sample(EATTR, rng.randint(0, 3)):
+        if k not in names and (rng.random() < 0.3 or k.lower() not in {n.lower() for n in names}):
+            new.append([k, [] if rng.random() < 0.3 else vals_()])
+            names.add(k)
+    rng.shuffle(new)
+    return old, new
 
 
 def _lenc(run, cls, o):
@@ -1508,6 +1674,196 @@ def _mut_entry(rng, cls, e):
     return e
 
 
+# ---- the update path: an in-memory directory + per-call tie with TmVerif.Codec.LdapUpdate -------------
+
+def _alower(s):
+    """lower case of an attribute description (ASCII, as `lowerAscii` of the model)"""
+    return ''.join(chr(ord(c) + 32) if 'A' <= c <= 'Z' else c for c in s)
+
+
+def _etoks(e):
+    """an entry (ordered dict name -> values) as an ORDERED list of pairs"""
+    return ' '.join(_jtoks([[k, list(v)] for k, v in e.items()]))
+
+
+def _eobs(e):
+    return 'ok ' + H(json.dumps([[k, list(v)] for k, v in e.items()]))
+
+
+def _mods_pairs(changes):
+    import ldap3
+    names = {ldap3.MODIFY_ADD: 'add', ldap3.MODIFY_DELETE: 'delete', ldap3.MODIFY_REPLACE: 'replace'}
+    return [[a, [[names.get(op, str(op)), list(vals)] for op, vals in ms]] for a, ms in (changes or {}).items()]
+
+
+class _MemConn(object):
+    """One stored entry behind the ldap3 connection interface `Admin` uses.  This is the ASSUMED directory
+    behaviour, the same specification as `fetch` / `applyMods` of TmVerif/Codec/LdapUpdate.lean (compared with them
+    on every request): attribute names match without regard to case, a search for `attr` returns its option
+    variants `attr;opt`, an attribute without values does not exist; ADD appends, DELETE without values removes
+    the attribute, DELETE with values removes those values, REPLACE sets the values."""
+
+    def __init__(self, entry):
+        self.entry = entry          # dict name -> list, insertion-ordered
+        self.result = None
+        self.response = None
+        self.searches = []          # (attributes requested, entry returned)
+        self.requests = []          # modify requests as sent
+
+    # -- what Admin.paged_search / Admin.search call
+    @property
+    def extend(self):
+        conn = self
+
+        class _Std(object):
+            @staticmethod
+            def paged_search(search_base=None, search_filter=None, search_scope=None, attributes=None, **_kw):
+                return iter(conn.do_search(attributes))
+
+        class _Ext(object):
+            standard = _Std
+        return _Ext
+
+    def search(self, search_base=None, search_filter=None, search_scope=None, attributes=None, **_kw):
+        self.response = self.do_search(attributes)
+
+    def do_search(self, attributes):
+        want = [_alower(a) for a in attributes]
+        got = {k: list(v) for k, v in self.entry.items() if _alower(k.split(';', 1)[0]) in want}
+        self.searches.append((list(attributes), {k: list(v) for k, v in got.items()}))
+        return [{'dn': 'dn', 'attributes': got}]
+
+    # -- what Admin.modify calls
+    def _find(self, attr):
+        for k in self.entry:
+            if _alower(k) == _alower(attr):
+                return k
+        return None
+
+    def _set(self, attr, vals):
+        if not vals:
+            for k in [k for k in self.entry if _alower(k) == _alower(attr)]:
+                del self.entry[k]
+            return
+        k = self._find(attr)
+        self.entry[attr if k is None else k] = list(vals)
+
+    def modify(self, dn, changes):
+        import ldap3
+        self.requests.append({a: [(op, list(vals)) for op, vals in ms] for a, ms in changes.items()})
+        for attr, mods in changes.items():
+            for op_, vals in mods:
+                k = self._find(attr)
+                cur = list(self.entry[k]) if k is not None else []
+                if op_ == ldap3.MODIFY_ADD:
+                    self._set(attr, cur + list(vals))
+                elif op_ == ldap3.MODIFY_DELETE:
+                    self._set(attr, [v for v in cur if not any(v is w or (type(v) is type(w) and v == w) for w in vals)]
+                              if vals else [])
+                elif op_ == ldap3.MODIFY_REPLACE:
+                    self._set(attr, list(vals))
+                else:
+                    raise ValueError(op_)
+
+
+def _mem_admin(entry):
+    """the REAL `Admin` over the in-memory directory (`update` / `remove` only note what they were given)"""
+    import copy
+    from treadmill.admin import _ldap
+
+    class _Adm(_ldap.Admin):
+        passed = None
+
+        def update(self, dn, new_entry):
+            self.passed = copy.deepcopy(new_entry)
+            return _ldap.Admin.update(self, dn, new_entry)
+
+        def remove(self, dn, entry):
+            self.passed = copy.deepcopy(entry)
+            return _ldap.Admin.remove(self, dn, entry)
+
+    adm = _Adm('ldap://x', 'dc=x')
+    conn = _MemConn(entry)
+    adm.ldap = conn
+    adm.write_ldap = conn
+    return adm, conn
+
+
+def _ci_distinct(e):
+    return len({_alower(k) for k in e}) == len(e)
+
+
+def _vset(vals):
+    return set(map(repr, vals))
+
+
+def _tie_update(run, mon, before, new_entry, conn, after, site):
+    """One call of the real `Admin.update` as the connection saw it (attributes read, entry returned, modify
+    request sent, entry stored afterwards) against the model; returns the request as pairs."""
+    run.tags.add('ldap-upd-call:' + site)
+    mon.updates += 1
+    attrs, fetched = conn.searches[-1] if conn.searches else ([], {})
+    mods = _mods_pairs(conn.requests[-1]) if conn.requests else []
+    mtoks = ' '.join(_jtoks(mods))
+    run.op('ldapkeys ' + _etoks(new_entry), 'ok ' + H(json.dumps(list(attrs))))
+    run.op('ldapfetch %s %s' % (' '.join(_jtoks(list(attrs))), _etoks(before)), _eobs(fetched))
+    run.op('ldapdiff %s %s' % (_etoks(fetched), _etoks(new_entry)), 'ok ' + H(json.dumps(mods)))
+    run.op('ldapapply %s %s' % (_etoks(before), mtoks), _eobs(after))
+    run.op('ldapupd %s %s' % (_etoks(before), _etoks(new_entry)),
+           'ok ' + H(json.dumps([mods, [[k, list(v)] for k, v in after.items()]])))
+    # ---- histogram
+    for op in sorted({op for _a, ms in mods for op, _v in ms}):
+        run.tags.add('ldap-upd:' + op)
+    if not mods:
+        run.tags.add('ldap-upd:nothing-sent')
+    low_old = {_alower(k): k for k in fetched}
+    touched = {_alower(a) for a, _ms in mods}
+    for k, vals in new_entry.items():
+        ok = low_old.get(_alower(k))
+        old = fetched.get(ok, []) if ok is not None else []
+        hit = _alower(k) in touched
+        if ok is not None and ok != k:
+            run.tags.add('ldap-upd:name-differs-in-case')
+        if ';' in k and hit:
+            run.tags.add('ldap-upd:option-attribute-modified')
+        if not vals:
+            run.tags.add('ldap-upd:empty-list-clears' if old else 'ldap-upd:empty-list-for-absent')
+            continue
+        if len(_vset(vals)) < len(vals):
+            run.tags.add('ldap-upd:duplicate-values')
+        if old and list(old) != list(vals) and not hit:
+            run.tags.add('ldap-upd:same-set-other-order-untouched')
+        if old and list(old) == list(vals):
+            run.tags.add('ldap-upd:attribute-unchanged')
+        if old and hit and len(old) == len(vals) and _vset(vals) < _vset(old):
+            run.tags.add('ldap-upd:same-length-new-within-old')
+        if old and hit and len(old) == len(vals) and _vset(old) < _vset(vals):
+            run.tags.add('ldap-upd:same-length-old-within-new')
+    if any(';' in a and op == 'delete' and _alower(a) not in {_alower(k) for k in new_entry}
+           for a, ms in mods for op, _v in ms):
+        run.tags.add('ldap-upd:keyed-row-dropped')
+    if any(len(v) >= 2 and ';' in k for k, v in new_entry.items()):
+        run.tags.add('ldap-upd:multi-valued-option-attribute')
+    # ---- monitor (entry level, on the real code's result; nothing of the model): every attribute the new entry
+    # names holds the new values as a SET (absent when there are none), every attribute it does not name - by its
+    # plain name - is as before.  Stated for entries whose names are distinct without regard to case.
+    if _ci_distinct(before) and _ci_distinct(new_entry):
+        a_low = {_alower(k): v for k, v in after.items()}
+        b_low = {_alower(k): v for k, v in before.items()}
+        named = {_alower(k.split(';', 1)[0]) for k in new_entry}
+        bad = []
+        for k, vals in new_entry.items():
+            got = a_low.get(_alower(k))
+            if (got is None) != (not vals) or (vals and _vset(got) != _vset(vals)):
+                bad.append('%s: wrote %r, stored %r' % (k, vals, got))
+        for lk in sorted(set(a_low) | set(b_low)):
+            if lk.split(';', 1)[0] not in named and a_low.get(lk) != b_low.get(lk):
+                bad.append('%s: not named, was %r, now %r' % (lk, b_low.get(lk), a_low.get(lk)))
+        if bad:
+            mon.hit('ldap-update', site, 'stored %r, update with %r: %s' % (before, new_entry, '; '.join(bad)))
+    return mods
+
+
 def run_ldap(items, run, mon):
     import random as _random
     from treadmill.admin import _ldap
@@ -1566,29 +1922,28 @@ def run_ldap(items, run, mon):
             try:
                 stored = _ldap._remove_empty(a_.to_entry(copy.deepcopy(it['o'])))      # pylint: disable=protected-access
                 stored0 = copy.deepcopy(stored)
-
-                class _Dir(_ldap.Admin):
-                    """The real Admin.update over one stored entry: `get` returns the requested attributes (every
-                    option variant of a requested name, as a directory does), `modify` applies the changes."""
-                    def get(self, dn, query, attrs, paged_search=True, dirty=False):      # pylint: disable=arguments-differ
-                        want = set(attrs)
-                        return {k_: list(v_) for k_, v_ in stored.items() if k_.split(';', 1)[0] in want}
-
-                    def modify(self, dn, changes):
-                        for attr, mods in (changes or {}).items():
-                            for op_, vals in mods:
-                                if op_ == ldap3.MODIFY_REPLACE:
-                                    stored[attr] = list(vals)
-                                elif op_ == ldap3.MODIFY_ADD:
-                                    stored[attr] = list(stored.get(attr, [])) + list(vals)
-                                elif op_ == ldap3.MODIFY_DELETE:
-                                    stored.pop(attr, None)
-                # LdapObject.update: admin.update(dn, to_entry(attrs)) - the new entry carries [] for what is cleared
-                _Dir('ldap://x', 'dc=x').update('dn', a_.to_entry(copy.deepcopy(it['o2'])))
+                # the REAL LdapObject.update -> to_entry -> the REAL Admin.update (get / _diff_entries / modify) over
+                # the in-memory directory; the new entry carries [] for what is cleared
+                adm_, conn_ = _mem_admin(stored)
+                ident_ = {'app': 'proid.app', 'calloc': ['cell', 'tenant/alloc'], 'part': ['part', 'cell']}[cls]
+                _lcls(cls)(adm_).update(ident_, copy.deepcopy(it['o2']))
                 back = a_.from_entry(copy.deepcopy(stored))
             except Exception as exc:  # pylint: disable=broad-except
                 mon.hit('ldap-update', LCLS[cls] + '.update', 'update of %r to %r raised %r' % (it['o'], it['o2'], exc))
                 continue
+            # ---- per-call tie: what the connection saw against `diffEntries` / `adminUpdate` of the model, and
+            # LdapObject.update as `to_entry` followed by it
+            mods_ = _tie_update(run, mon, stored0, adm_.passed, conn_, stored, LCLS[cls] + '.update')
+            run.op('ldapobjupd %s %s %s' % (cls, _etoks(stored0), ' '.join(_jtoks(it['o2']))), _eobs(stored))
+            for k_, v_ in it['o2'].items():
+                if v_ is None:
+                    run.tags.add('ldap-upd:field-none')
+                elif v_ == [] and not k_.startswith('_'):
+                    run.tags.add('ldap-upd:field-empty-list')
+                elif isinstance(v_, list) and v_ and isinstance(v_[0], dict):
+                    run.tags.add('ldap-upd:keyed-list-given')
+            if it.get('how'):
+                run.tags.add('ldap-upd-gen:' + it['how'])
             # oracle of the update: every attribute NAMED in the new entry (with whatever options) takes the new
             # entry's values, everything else stays - computed here on the entries, decoded by the real from_entry
             try:
@@ -1622,6 +1977,34 @@ def run_ldap(items, run, mon):
                 mon.hit('ldap-update', LCLS[cls] + '.update',
                         'created %r, updated to %r, read %r: %s' % (it['o'], it['o2'], back, lost))
             else:
+                mon.nt += 1
+            continue
+        if it['k'] == 'eupd':
+            # entry level: the real Admin.update / Admin.remove on a stored entry given as such (names that differ
+            # in case, option variants, repeated values, [] for present and absent attributes)
+            import copy
+            stored = {k_: list(v_) for k_, v_ in it['old']}
+            new_e = {k_: list(v_) for k_, v_ in it['new']}
+            before = copy.deepcopy(stored)
+            adm_, conn_ = _mem_admin(stored)
+            site = 'Admin.remove' if it.get('rm') else 'Admin.update'
+            try:
+                if it.get('rm'):
+                    adm_.remove('dn', copy.deepcopy(new_e))
+                else:
+                    adm_.update('dn', copy.deepcopy(new_e))
+            except Exception as exc:  # pylint: disable=broad-except
+                mon.hit('ldap-update', site, 'stored %r, %s with %r raised %r' % (before, site, new_e, exc))
+                continue
+            if it.get('rm'):
+                mods_ = _mods_pairs(conn_.requests[-1]) if conn_.requests else []
+                run.op('ldaprm ' + _etoks(new_e), 'ok ' + H(json.dumps(mods_)))
+                run.op('ldapapply %s %s' % (_etoks(before), ' '.join(_jtoks(mods_))), _eobs(stored))
+                run.tags.add('ldap-upd-call:Admin.remove')
+            else:
+                _tie_update(run, mon, before, new_e, conn_, stored, site)
+                if not (_ci_distinct(before) and _ci_distinct(new_e)):
+                    run.tags.add('ldap-upd:names-not-distinct-by-case')
                 mon.nt += 1
             continue
         if it['k'] == 'ldap':
